@@ -68,6 +68,10 @@ impl Gt {
 
     /// Classification per the statement of C08.
     pub fn class(&self) -> GtClass {
+        // a lone `.` is VCF's spelling of a wholly missing genotype (no ploidy is implied)
+        if self.alleles.len() == 1 && self.alleles[0].is_none() {
+            return GtClass::Missing;
+        }
         if self.alleles.len() != 2 {
             return GtClass::NotDiploid;
         }
@@ -283,6 +287,7 @@ pub fn gt_strategy(odd_ploidy: bool, missing_weight: u32, multi_weight: u32) -> 
         3 => any::<bool>().prop_map(|p| Gt::diploid(None, None, p)),
         1 => (0u8..=1, any::<bool>()).prop_map(|(a, p)| Gt::diploid(None, Some(a), p)),
         1 => (0u8..=1, any::<bool>()).prop_map(|(a, p)| Gt::diploid(Some(a), None, p)),
+        1 => Just(Gt { alleles: vec![None], phased: vec![] }),
     ];
     let multi = prop_oneof![
         2 => (0u8..=3, 2u8..=3, any::<bool>(), any::<bool>()).prop_map(|(a, b, swap, p)| if swap { Gt::diploid(Some(b), Some(a), p) } else { Gt::diploid(Some(a), Some(b), p) }),
@@ -480,7 +485,7 @@ pub fn force_record_classes(cs: &mut CallSet, selected: &[bool]) {
 pub fn make_selected_diploid(cs: &mut CallSet, selected: &[bool]) {
     for r in cs.records.iter_mut() {
         for (i, g) in r.gts.iter_mut().enumerate() {
-            if selected[i] && g.alleles.len() != 2 {
+            if selected[i] && g.class() == GtClass::NotDiploid {
                 let a = g.alleles.first().copied().flatten().unwrap_or(0).min(1) as u8;
                 *g = Gt::diploid(Some(a), Some(0), false);
             }
